@@ -24,9 +24,11 @@ CONSTANTS MaxBlocks,      \* bound on non-genesis blocks
 VARIABLES tree,   \* block id -> [parent, number, work, ext]
           main,   \* main chain, main[1] = 0
           mmr,    \* sequence of digests: mmr[pos + 1] is the node at position pos (stale tail allowed)
-          bad     \* blocks whose verification failed (and their descendants are never attached)
+          bad,    \* blocks whose commitment check failed
+          dropped \* blocks that arrived on top of a chain containing such a block: the node discards the arriving
+                  \* block together with the verdict (delete_unverified_block + BLOCK_INVALID)
 
-vars == <<tree, main, mmr, bad>>
+vars == <<tree, main, mmr, bad, dropped>>
 Last(s) == s[Len(s)]
 
 -----------------------------------------------------------------------------
@@ -125,7 +127,7 @@ CommonLen(a, b) == CHOOSE n \in 0..Len(a) : /\ n <= Len(b) /\ Prefix(a, n) = Pre
 Init == /\ tree = [b \in {0} |-> [parent |-> 0, number |-> 0, work |-> 0, ext |-> <<>>]]
         /\ main = <<0>>
         /\ mmr = <<<<0>>>>                \* genesis digest at position 0 (init_genesis)
-        /\ bad = {}
+        /\ bad = {} /\ dropped = {}
 
 \* reconcile_main_chain for the attached blocks att (in order): the MMR is re-opened at `size`; for each block
 \* BlockExtensionVerifier compares its commitment with the root of the MMR so far, then its digest is pushed.
@@ -139,7 +141,7 @@ Reconcile(T, st, size, att) ==
 
 \* a new block arrives (its parent is known, not invalid); the heavier chain becomes the main chain
 Mine(p, w, honest) ==
-  /\ NextId <= MaxBlocks /\ p \in DOMAIN tree /\ p \notin bad
+  /\ NextId <= MaxBlocks /\ p \in DOMAIN tree /\ p \notin bad \cup dropped
   /\ LET b  == NextId
          ch == Chain(p)
          nt == [x \in DOMAIN tree \cup {b} |->
@@ -153,9 +155,10 @@ Mine(p, w, honest) ==
                     size == IF WrongSize THEN MMRSize(Len(main) - 1) ELSE MMRSize(keep - 1)
                     r    == Reconcile(nt, mmr, size, att)
                 IN IF r.ok
-                   THEN /\ mmr' = r.st /\ main' = Append(ch, b) /\ bad' = bad      \* txn committed
-                   ELSE /\ UNCHANGED <<mmr, main>> /\ bad' = bad \cup {r.failed}   \* txn dropped
-           ELSE UNCHANGED <<mmr, main, bad>>
+                   THEN /\ mmr' = r.st /\ main' = Append(ch, b) /\ UNCHANGED <<bad, dropped>>   \* txn committed
+                   ELSE /\ UNCHANGED <<mmr, main>> /\ bad' = bad \cup {r.failed}                 \* txn dropped
+                        /\ dropped' = IF r.failed = b THEN dropped ELSE dropped \cup {b}
+           ELSE UNCHANGED <<mmr, main, bad, dropped>>
 
 Next == \E p \in DOMAIN tree, w \in Works, honest \in BOOLEAN : Mine(p, w, honest)
 Spec == Init /\ [][Next]_vars
@@ -171,6 +174,7 @@ TypeOK == /\ main[1] = 0 /\ \A k \in 2..Len(main) : tree[main[k]].parent = main[
 CommittedRootIsAncestors ==
   /\ \A k \in 2..Len(main) : tree[main[k]].ext = Prefix(main, k - 1)
   /\ \A b \in bad : tree[b].ext # Chain(tree[b].parent)
+  /\ \A b \in dropped : \E a \in bad : \E k \in DOMAIN Chain(b) : Chain(b)[k] = a
 \* after any reorganisation the root served for every main-chain height is the root over that chain
 MainRootAfterReorg == \A n \in 0..(Len(main) - 1) : Root(mmr, MMRSize(n)) = Ids(n)
 \* no position below the current size holds a node of an abandoned branch
